@@ -79,6 +79,7 @@ def run(tier, seed):
     ri = resume_items(tier)
     col.merge(stepcheck.explore(ri, MONS, 0, 0, seed=seed))
     col.merge(stepcheck.explore(stepcheck.edited_items(names=("add-task", "add-link", "task-work")), MONS, 0, 0, seed=seed))  # the model edited between two runs (a first task for an empty component)
+    col.merge(stepcheck.explore(F.scale_items(("TSLACK",)), MONS, 0, 0, seed=seed))  # medium-sized models (10-14 tasks / workers / machines), long absence lists
     meta = {
         "level": "model_checking",
         "rule": "FS/SS workflows on 3 tasks x every assignment of the tasks to <=2 (thorough 3) components or to none (incl. empty components) x progress/auto variants, "
